@@ -29,6 +29,7 @@ pub fn def() -> CheckDef {
         exec,
         components: "real code: cbc, pcbc, ige crates and the cipher crate's BlockMode* front ends; stub: block cipher (SimCipher toy permutation) in most runs, real AES-128/Magma/Kuznyechik in the rest; oracle: reference recurrences in sim/src/model.rs",
         assumptions: &["reference model and toy permutation are correct (self-tested at start-up)", "cipher/inout/hybrid-array crates are trusted", "sampling, not proof"],
+        nondet_is_violation: false,
     }
 }
 
